@@ -4,8 +4,10 @@ package main
 
 import (
 	"fmt"
+	"go/constant"
 	"go/token"
 	"go/types"
+	"math/big"
 	"sort"
 	"strings"
 
@@ -34,36 +36,37 @@ type closureVal struct {
 }
 
 type frame struct {
-	vc      *VC
-	fn      *ssa.Function
-	fc      *FuncContract
-	pfx     string
-	name    string
-	vals    map[ssa.Value]T
-	addrs   map[ssa.Value]*addr
-	tuples  map[ssa.Value][]T
-	clos    map[ssa.Value]*closureVal
-	inline  bool
-	depth   int
-	entry   *state
-	next0   string
-	modRefs []string
-	modAll  bool
-	loops   []*Loop
-	loopAt  map[*ssa.BasicBlock]*Loop
-	out     map[*ssa.BasicBlock]*state
-	conds   map[*ssa.BasicBlock]string
-	rets    []retInfo
-	debug   []dbgRef
-	caller  *frame
-	inputs  []string // names of input constants (for models)
-	params  map[string]T
-	paramA  map[string]*addr
-	defers  []*ssa.Defer
+	vc          *VC
+	fn          *ssa.Function
+	fc          *FuncContract
+	pfx         string
+	name        string
+	vals        map[ssa.Value]T
+	addrs       map[ssa.Value]*addr
+	tuples      map[ssa.Value][]T
+	clos        map[ssa.Value]*closureVal
+	inline      bool
+	depth       int
+	entry       *state
+	next0       string
+	modRefs     []string
+	modAll      bool
+	loops       []*Loop
+	loopAt      map[*ssa.BasicBlock]*Loop
+	out         map[*ssa.BasicBlock]*state
+	conds       map[*ssa.BasicBlock]string
+	rets        []retInfo
+	debug       []dbgRef
+	caller      *frame
+	inputs      []string // names of input constants (for models)
+	params      map[string]T
+	paramA      map[string]*addr
+	defers      []*ssa.Defer
 	loopMeasure map[*Loop]string
-	callbacks map[string]*CallbackSpec
+	callbacks   map[string]*CallbackSpec
 	ghostVisits bool
-	iterMap   map[ssa.Value]*iterState
+	skipWrap    bool
+	iterMap     map[ssa.Value]*iterState
 }
 
 func newFrame(vc *VC, fn *ssa.Function, pfx string) *frame {
@@ -229,8 +232,24 @@ func (fr *frame) mergeEdges(b *ssa.BasicBlock, edges []edge) *state {
 	sort.Strings(hks)
 	for _, k := range hks {
 		k := k
-		s := fr.mergeTerm(k, vc.heapNames[k], edges, func(s *state) string { return vc.heapGet(s, k) })
+		s := fr.mergeTerm(k, vc.heapNames[k], edges, func(s *state) string { return vc.heapGetQuiet(s, k) })
 		st.heap[k] = s
+		if es, isArr := vc.elemSortOfArr(k); isArr && len(vc.capStack) == 0 {
+			same := true
+			for _, e := range edges {
+				if vc.heapGetQuiet(e.st, k) != s {
+					same = false
+				}
+			}
+			if !same {
+				term := vc.at(es, vc.heapGetQuiet(edges[len(edges)-1].st, k), "s", "j")
+				for i := len(edges) - 2; i >= 0; i-- {
+					term = ite(edges[i].reach, vc.at(es, vc.heapGetQuiet(edges[i].st, k), "s", "j"), term)
+				}
+				am := vc.at(es, s, "s", "j")
+				vc.emit(fmt.Sprintf("(assert (forall ((s Slice) (j Int)) (! (= %s %s) :pattern (%s))))", am, term, am))
+			}
+		}
 	}
 	return st
 }
@@ -250,6 +269,12 @@ func (fr *frame) mergeTerm(base string, srt Sort, edges []edge, get func(*state)
 	term := get(edges[len(edges)-1].st)
 	for i := len(edges) - 2; i >= 0; i-- {
 		term = ite(edges[i].reach, get(edges[i].st), term)
+	}
+	if strings.HasPrefix(base, "Arr_") && len(fr.vc.capStack) == 0 {
+		n := fr.vc.fresh(base)
+		fr.vc.emit(fmt.Sprintf("(declare-const %s %s)", n, srt))
+		fr.vc.emit(fmt.Sprintf("(assert (= %s %s))", n, term))
+		return n
 	}
 	return fr.vc.define(base, srt, term)
 }
@@ -413,6 +438,19 @@ func (fr *frame) step(in ssa.Instruction, st *state) bool {
 		v := fr.val(x.Val)
 		fr.store(a, v, st, fr.pos(x.Pos()))
 	case *ssa.BinOp:
+		if info := bitsOf(x, 0); info.ok && fitsType(info, x.Type()) && (x.Op == token.OR || x.Op == token.SHL || x.Op == token.AND) {
+			fr.skipWrap = true
+			defer func() { fr.skipWrap = false }()
+		}
+		if x.Op == token.OR {
+			// operands with statically disjoint bit ranges: a | b == a + b (exact)
+			ia, ib := bitsOf(x.X, 0), bitsOf(x.Y, 0)
+			if ia.ok && ib.ok && (ia.max <= ib.lowZero || ib.max <= ia.lowZero) {
+				a, b := fr.val(x.X), fr.val(x.Y)
+				fr.setVal(x, fr.wrapInt(T{fmt.Sprintf("(+ %s %s)", a.S, b.S), "Int", x.Type()}, x.Type()))
+				break
+			}
+		}
 		fr.setVal(x, fr.binop(x.Op, fr.val(x.X), fr.val(x.Y), x.Type(), st, fr.pos(x.Pos())))
 	case *ssa.Field:
 		fr.setVal(x, vc.getField(fr.val(x.X), x.Field))
@@ -428,6 +466,12 @@ func (fr *frame) step(in ssa.Instruction, st *state) bool {
 			fr.havocVal(x, st, "string index")
 		}
 	case *ssa.Convert:
+		if info := bitsOf(x, 0); info.ok && fitsType(info, x.Type()) && isInteger(x.X.Type()) {
+			if in := bitsOf(x.X, 0); in.ok {
+				fr.skipWrap = true
+				defer func() { fr.skipWrap = false }()
+			}
+		}
 		fr.setVal(x, fr.convert(fr.val(x.X), x.X.Type(), x.Type(), st))
 	case *ssa.ChangeType:
 		v := fr.val(x.X)
@@ -611,7 +655,7 @@ func (fr *frame) doAlloc(x *ssa.Alloc, st *state) {
 	if arr, isArr := unalias(et).Underlying().(*types.Array); isArr {
 		es := vc.sortOf(arr.Elem())
 		h := vc.heapArr(es)
-		vc.heapSet(st, h, fmt.Sprintf("(store %s %s %s)", vc.heapGet(st, h), r, z.S))
+		vc.heapStoreRef(st, h, r, z.S)
 		fr.addrs[x] = &addr{kind: aArrPtr, ref: r, typ: et}
 		return
 	}
@@ -696,7 +740,7 @@ func pow2(bits int, delta int64) string {
 // wrapInt applies two's-complement wrap-around for narrow integer types.
 func (fr *frame) wrapInt(v T, t types.Type) T {
 	b, ok := unalias(t).Underlying().(*types.Basic)
-	if !ok || v.Sort != "Int" {
+	if !ok || v.Sort != "Int" || fr.skipWrap {
 		return v
 	}
 	bits, signed, bounded := intWidth(b)
@@ -943,4 +987,133 @@ func (fr *frame) assumeLoaded(v T, st *state) {
 	for _, c := range vc.allocFacts(v, st.next, 0) {
 		vc.assume(st.reach, c)
 	}
+}
+
+// bitInfo: static knowledge about a non-negative integer value: v < 2^max and the lowZero lowest bits are 0.
+type bitInfo struct {
+	ok      bool
+	max     int
+	lowZero int
+}
+
+func bitsOf(v ssa.Value, depth int) bitInfo {
+	if depth > 12 {
+		return bitInfo{}
+	}
+	unsignedWidth := func(t types.Type) (int, bool) {
+		b, ok := unalias(t).Underlying().(*types.Basic)
+		if !ok {
+			return 0, false
+		}
+		bits, signed, _ := intWidth(b)
+		if bits == 0 || signed {
+			return 0, false
+		}
+		return bits, true
+	}
+	switch x := v.(type) {
+	case *ssa.Const:
+		if x.Value == nil {
+			return bitInfo{}
+		}
+		iv := constant.ToInt(x.Value)
+		if iv.Kind() != constant.Int || constant.Sign(iv) < 0 {
+			return bitInfo{}
+		}
+		bi, ok := constant.Val(iv).(*big.Int)
+		if !ok {
+			i64, _ := constant.Int64Val(iv)
+			bi = big.NewInt(i64)
+		}
+		if bi.Sign() == 0 {
+			return bitInfo{true, 0, 64}
+		}
+		return bitInfo{true, bi.BitLen(), int(bi.TrailingZeroBits())}
+	case *ssa.Convert:
+		in := bitsOf(x.X, depth+1)
+		if w, ok := unsignedWidth(x.Type()); ok {
+			if in.ok && in.max <= w {
+				return in
+			}
+			if sw, ok2 := unsignedWidth(x.X.Type()); ok2 && sw <= w {
+				return bitInfo{true, sw, 0}
+			}
+			return bitInfo{true, w, 0}
+		}
+		return bitInfo{}
+	case *ssa.BinOp:
+		switch x.Op {
+		case token.SHL:
+			if c, ok := x.Y.(*ssa.Const); ok && c.Value != nil {
+				k64, exact := constant.Int64Val(constant.ToInt(c.Value))
+				in := bitsOf(x.X, depth+1)
+				w, isU := unsignedWidth(x.Type())
+				if exact && in.ok && isU && k64 >= 0 && in.max+int(k64) <= w {
+					return bitInfo{true, in.max + int(k64), in.lowZero + int(k64)}
+				}
+			}
+		case token.OR, token.XOR:
+			a, b := bitsOf(x.X, depth+1), bitsOf(x.Y, depth+1)
+			if a.ok && b.ok {
+				return bitInfo{true, maxInt(a.max, b.max), minInt(a.lowZero, b.lowZero)}
+			}
+		case token.AND:
+			a, b := bitsOf(x.X, depth+1), bitsOf(x.Y, depth+1)
+			if a.ok && b.ok {
+				return bitInfo{true, minInt(a.max, b.max), maxInt(a.lowZero, b.lowZero)}
+			}
+			if a.ok {
+				return bitInfo{true, a.max, a.lowZero}
+			}
+			if b.ok {
+				return bitInfo{true, b.max, b.lowZero}
+			}
+		}
+	case *ssa.Phi:
+		res := bitInfo{true, 0, 64}
+		for _, e := range x.Edges {
+			if e == v {
+				continue
+			}
+			in := bitsOf(e, depth+1)
+			if !in.ok {
+				return bitInfo{}
+			}
+			res.max = maxInt(res.max, in.max)
+			res.lowZero = minInt(res.lowZero, in.lowZero)
+		}
+		return res
+	}
+	if w, ok := unsignedWidth(v.Type()); ok {
+		return bitInfo{true, w, 0}
+	}
+	return bitInfo{}
+}
+
+func fitsType(info bitInfo, t types.Type) bool {
+	b, ok := unalias(t).Underlying().(*types.Basic)
+	if !ok {
+		return false
+	}
+	bits, signed, _ := intWidth(b)
+	if bits == 0 {
+		return false
+	}
+	if signed {
+		return info.max <= bits-1
+	}
+	return info.max <= bits
+}
+
+func maxInt(a, b int) int {
+	if a > b {
+		return a
+	}
+	return b
+}
+func minInt(a, b int) int {
+	if a < b {
+		return a
+	}
+	return b
 }
